@@ -1,0 +1,16 @@
+//go:build verif
+
+// Package verifhook provides scheduler gates for the verification harness.
+// It is only active when the module is built with the "verif" build tag.
+package verifhook
+
+// Gate, when set, is called at every instrumented point. A blocking Gate lets a
+// test harness park a goroutine there and so force a particular interleaving.
+var Gate func(point string)
+
+// At marks an instrumented point.
+func At(point string) {
+	if g := Gate; g != nil {
+		g(point)
+	}
+}
